@@ -58,7 +58,30 @@ var c19errKinds = []string{"Err", "AssertionErr", "NameErr", "NoPropErr", "NotIm
 func c19program(rng *rand.Rand, names []string) string {
 	n := func() string { return names[rng.Intn(len(names))] }
 	k := c19errKinds[rng.Intn(len(c19errKinds))]
-	switch rng.Intn(20) {
+	protos := []string{"Int", "Str", "Arr", "Obj", "Kernel", "JSON", "Map", "Either", "Iterable", "Nil", "Err"}
+	switch rng.Intn(29) {
+	case 20:
+		// two ** expansions whose first operand is a shared built-in object
+		return fmt.Sprintf("\"a\".p(**%s, **{leak_%s: 42})", protos[rng.Intn(len(protos))], n())
+	case 21:
+		return fmt.Sprintf("{|x| \\_.keys.len}(1, **%s, **{leak2_%s: 1}).p", protos[rng.Intn(len(protos))], n())
+	case 22:
+		return fmt.Sprintf("[1.try.leak_%s.err.type == NoPropErr, \"\".try.leak_%s.err.type == NoPropErr, [].try.leak2_%s.err.type == NoPropErr]", n(), n(), n())
+	case 23:
+		// built-in iterators driven past their end: the stop error must be fresh every time
+		src := []string{"[1]", "{a: 1}", "%{1: 2}", "\"ab\"", "(1:2)", "2"}[rng.Intn(6)]
+		return "it := " + src + "._iter\nit.next\nit.try.next\nit.try.next\nit.next\nit.next"
+	case 24:
+		return "[1, 2].lazyMap {|x| x * 2}.A.p\n[3, 4].withI.A.p\n[[1], [2]].zip([3]).A.p\n[]._iter.next"
+	case 25:
+		return "assertRaises(StopIterErr, \"iter stopped\") {[]._iter.next}\n[5].while {|x| x < 9}.A.p\n[7]._iter.{|i| i.next; i.next}"
+	case 26:
+		return fmt.Sprintf("[1.leak_%s]", n())
+	case 28:
+		// abstract props reached through indexing instead of a property call
+		return []string{"Either['A]", "Either.at(['fmap])", "Either['val]\n1.p", "e := Either\ne['or]", "[Either['err]]"}[rng.Intn(5)]
+	case 27:
+		return "Int.keys(private?: true).len.p; Kernel.keys.len.p; JSON.keys.p; Either.keys(private?: true).p"
 	case 0:
 		return "1.p\n_"
 	case 1:
